@@ -7,28 +7,14 @@ from props import codec_common
 def envelopes(scr, sdir, verdict, cov):
     """Last clause of C03: request / response envelopes and protocol headers.  Call.tla's envelope table, checked on every
     exchange between the generated client and the generated server (the same exchanges C02 replays)."""
-    r = lib.run_tlc(sdir, "MC_Call.tla", "MC_Call.cfg", workers=8, timeout=1800)
-    if not r.ok:
-        raise lib.Broken("Call.tla: %s violated" % r.violated)
-    rows = sorted(set(json.loads(x) for x in r.printed))
-    rf = os.path.join(scr.path, "calls.ndjson")
-    with open(rf, "w") as f:
-        for x in rows:
-            f.write(x + "\n")
-
-    def extra(d):
-        lib.vt_bindings(scr, d)
-        os.remove(os.path.join(d, "registry.go"))
-    binp = lib.go_module(scr, "e2e", "v2", extra_src=extra)
-    code, out, err, wall = lib.run_bin(binp, ["-in", rf], timeout=3000, cwd=os.path.dirname(binp))
-    if code != 0:
-        raise lib.Broken("e2e harness failed: %s" % err[-3000:])
-    for line in out.splitlines():
-        o = json.loads(line)
-        if o["kind"] == "violation" and o["key"].startswith("C03/"):
-            verdict.add(o["key"], o["what"], o["case"])
-        elif o["kind"] == "stats":
-            cov["envelopes_checked"] = o["stats"].get("envelopes_checked", 0)
+    from props import e2e_common
+    r, rows = e2e_common.call_rows(sdir)
+    for gen, objs in e2e_common.e2e_runs(scr, rows):
+        for o in objs:
+            if o["kind"] == "violation" and o["key"].startswith("C03/"):
+                verdict.add(o["key"], o["what"], o["case"])
+            elif o["kind"] == "stats":
+                cov["envelopes_checked"] = cov.get("envelopes_checked", 0) + o["stats"].get("envelopes_checked", 0)
     cov["tlc_call"] = r.summary()
     cov["states"] += r.distinct
     cov["transitions"] += r.generated
